@@ -223,6 +223,9 @@ func (w *World) checkProperty(id, tier string, seed int, t0 time.Time, writeEvid
 	results := dischargeAll(pr.obls, workDir, timeout, 16)
 	known := loadKnown()
 	byName := map[string]*Result{}
+	for _, n := range slowSkipped {
+		byName[n] = &Result{Status: "skipped"}
+	}
 	for _, r := range results {
 		byName[r.Obl.Name] = r
 	}
